@@ -100,6 +100,8 @@ def fields(specs, passes=2):
                 flds[k] = {"str": v}
             elif v is None or isinstance(v, (bool, int)):
                 flds[k] = v
+            elif k == "_schedule" and isinstance(v, list):
+                flds[k] = {"ops": [[op.type, op.index] for op in v]}
         r = drive(spec, passes=passes, keep_stream=True, observe=False)
         out.append({"fields": flds, "stream": r["stream"], "error": r["error"]})
     return out
